@@ -160,6 +160,19 @@ func analyse(x *Exec) *RunResult {
 				}
 			}
 		}
+		if wr.Inst != nil {
+			for _, b := range wr.Inst.Bind {
+				if b.Wd == 0 {
+					continue
+				}
+				if who := foreignRemover(x, wr, b.Wd); who != "" {
+					cnt["rm_watch_issued_for_another_watcher_hit_this_instance"]++
+					add(Violation{Kind: "foreign-watch", Watcher: wr.Idx, Site: "rm",
+						Detail: fmt.Sprintf("the kernel watch wd=%d (%q) of watcher %d was removed by an inotify_rm_watch that %s issued for a different Watcher: its descriptor number had been closed and handed out again", b.Wd, b.Path, wr.Idx, who)})
+					break
+				}
+			}
+		}
 		// cap(Events)
 		want := wr.BufReq
 		if want < 0 {
@@ -333,6 +346,11 @@ func analyse(x *Exec) *RunResult {
 				}
 				for _, w := range fm.W {
 					if !got[w.Ino] {
+						if who := foreignRemover(x, wr, w.Wd); who != "" {
+							add(Violation{Kind: "foreign-watch", Watcher: wr.Idx, Site: "rm",
+								Detail: fmt.Sprintf("%q is listed by watcher %d but its kernel watch (wd=%d) was removed by %s: a syscall meant for another Watcher's descriptor acted on this one (number reuse)", w.Spelling, wr.Idx, w.Wd, who)})
+							break
+						}
 						add(Violation{Kind: "kernel-mark-missing", Watcher: wr.Idx, Site: "listed-path-without-mark",
 							Detail: fmt.Sprintf("at final quiescence %q is listed but the kernel holds no watch for its file", w.Spelling)})
 						break
@@ -513,6 +531,45 @@ func mainDone(x *Exec) bool {
 		}
 	}
 	return false
+}
+
+// foreignRemover finds a successful inotify_rm_watch of wd on wr's instance that
+// was not issued on behalf of wr (by its own reader or by an API call on wr).
+func foreignRemover(x *Exec, wr *WatcherRec, wd int32) string {
+	if wr.Inst == nil {
+		return ""
+	}
+	myReader := -1
+	ri := 0
+	for _, t := range x.S.Tasks() {
+		if t.Role == "reader" {
+			if ri == wr.ReaderIdx {
+				myReader = t.ID
+			}
+			ri++
+		}
+	}
+	for _, c := range wr.Inst.Calls {
+		if c.Kind != "rm" || c.Errno != 0 || int32(c.Wd) != wd || c.Task == myReader {
+			continue
+		}
+		own := false
+		for _, h := range x.H {
+			if h.TaskID == c.Task && h.W == wr.Idx && h.Inv <= c.Step && (h.Ret < 0 || c.Step <= h.Ret) {
+				own = true
+			}
+		}
+		if !own {
+			name := fmt.Sprintf("task %d", c.Task)
+			for _, t := range x.S.Tasks() {
+				if t.ID == c.Task {
+					name = t.Name + "[" + t.Role + "]"
+				}
+			}
+			return name
+		}
+	}
+	return ""
 }
 
 func spellings(m *Model) []string {
